@@ -225,7 +225,7 @@ func runCheck(o CheckOpts) int {
 			return true
 		}
 		switch ob.Kind {
-		case "post", "refine", "lemma":
+		case "post", "lemma":
 			return false
 		}
 		return true
